@@ -103,10 +103,31 @@ def dist_streams(ctx):
             ents.append([it, r.choice([0, 1, 2, 3, 6])])
         if all(e[1] == 0 for e in ents):
             ents[0][1] = 2
-        cls = {"name": "K0", "fields": [{"name": "a", "kind": "scalar", "w": 4, "sg": False, "rand": True},
-                                        {"name": "b", "kind": "scalar", "w": 3, "sg": False, "rand": True}],
-               "blocks": [{"name": "c0", "stmts": [["dist", ["f", ["a"]], ents]]}], "pre_randomize": [], "post_randomize": []}
-        fcases.append({"enums": {}, "classes": [cls], "root_cls": "K0",
+        fields = [{"name": "a", "kind": "scalar", "w": 4, "sg": False, "rand": True},
+                  {"name": "b", "kind": "scalar", "w": 4, "sg": False, "rand": True}]
+        kind = ["single", "shared", "foreach"][k % 3]
+        judged = [(0, ents)]              # (index of the value among the leaves, entries with numeric weights)
+        if kind == "single":
+            stmts = [["dist", ["f", ["a"]], ents]]
+        elif kind == "shared":
+            # a second dist on another field; both read one of their weights from the same non-random field (the two rand sets
+            # are merged through it - each field must keep its own weighting)
+            wv = r.choice([2, 5, 8])
+            fields.append({"name": "w", "kind": "scalar", "w": 4, "sg": False, "rand": False, "init": wv})
+            ents = [[it, wv] if j == 0 else [it, w] for j, (it, w) in enumerate(ents)]
+            ents2 = [[1, wv], [2, 1], [[4, 5], 2]]
+            sym = lambda es: [[it, ["f", ["w"]]] if j == 0 else [it, w] for j, (it, w) in enumerate(es)]
+            stmts = [["dist", ["f", ["a"]], sym(ents)], ["dist", ["f", ["b"]], sym(ents2)]]
+            judged = [(0, ents), (1, ents2)]
+        else:
+            # the dist inside a foreach over a two-element list (the statement is copied per element)
+            fields.append({"name": "l", "kind": "list", "elem": {"kind": "scalar", "w": 4, "sg": False}, "rand": True, "randsz": False, "size": 2})
+            if not any(isinstance(it, list) for it, _ in ents):
+                ents.append([[14, 15], 2])
+            stmts = [["foreach", ["l"], [["dist", ["it"], ents]]]]
+            judged = [(2, ents), (3, ents)]
+        cls = {"name": "K0", "fields": fields, "blocks": [{"name": "c0", "stmts": stmts}], "pre_randomize": [], "post_randomize": []}
+        fcases.append({"enums": {}, "classes": [cls], "root_cls": "K0", "judged": judged, "kind": kind,
                        "ops": [{"op": "new", "var": "o", "cls": "K0"}, {"op": "seed", "var": "o", "seed": 1000 + k}]
                        + [{"op": "randomize", "var": "o", "inline": None} for _ in range(ncalls)]})
     fobs = core.run_impl_parallel(ctx, "solve_impl.py", fcases)
@@ -116,28 +137,36 @@ def dist_streams(ctx):
         if o.get("_crash") or "crash" in o:
             ctx.tie_broken.append("frequency worker crashed: %s" % str(o)[:300])
             continue
-        vals = [r["values"][0] for op, r in zip(c["ops"], o["ops"]) if op["op"] == "randomize" and r["outcome"] == "ok"]
-        ents = c["classes"][0]["blocks"][0]["stmts"][0][2]
-        total = sum(w for _, w in ents)
-        for it, w in ents:
-            members = list(range(it[0], it[1] + 1)) if isinstance(it, list) else [it]
-            k_ent = sum(1 for v in vals if v in members)
-            ntests += 1
-            p = w / total
-            if w == 0 and k_ent > 0:
-                core.add_violation(ctx, "zero-weight entry %r produced %d times" % (it, k_ent), {"case": c["classes"], "counts": k_ent})
-            elif binom_tail(len(vals), k_ent, p) < alpha:
-                core.add_violation(ctx, "entry %r of weights %r chosen %d times in %d calls: exact two-sided binomial tail %.3g for p = %d/%d"
-                                   % (it, ents, k_ent, len(vals), binom_tail(len(vals), k_ent, p), w, total), {"case": c["classes"], "values": vals[:200]})
-            if w > 0 and len(members) > 1:
-                for m in members:
-                    ntests += 1
-                    km = sum(1 for v in vals if v == m)
-                    if binom_tail(len(vals), km, p / len(members)) < alpha:
-                        core.add_violation(ctx, "value %d of range entry %r produced %d times in %d calls (expected share %d/%d/%d)"
-                                           % (m, it, km, len(vals), w, total, len(members)), {"case": c["classes"], "values": vals[:200]})
-        if any(v not in {m for it, w in ents if w > 0 for m in (range(it[0], it[1] + 1) if isinstance(it, list) else [it])} for v in vals):
-            core.add_violation(ctx, "an unlisted or zero-weight value was produced by an otherwise unconstrained dist", {"case": c["classes"], "values": vals[:200]})
+        for vi, ents in c["judged"]:
+            vals = [r["values"][vi] for op, r in zip(c["ops"], o["ops"]) if op["op"] == "randomize" and r["outcome"] == "ok"]
+            if len(vals) < ncalls:
+                core.add_violation(ctx, "a satisfiable dist scenario (%s) did not return normally in %d of %d calls" % (c["kind"], ncalls - len(vals), ncalls),
+                                   {"case": c["classes"]})
+                break
+            total = sum(w for _, w in ents)
+            for it, w in ents:
+                members = list(range(it[0], it[1] + 1)) if isinstance(it, list) else [it]
+                k_ent = sum(1 for v in vals if v in members)
+                ntests += 1
+                p = w / total
+                if w == 0 and k_ent > 0:
+                    core.add_violation(ctx, "zero-weight entry %r produced %d times" % (it, k_ent), {"case": c["classes"], "counts": k_ent})
+                elif binom_tail(len(vals), k_ent, p) < alpha:
+                    core.add_violation(ctx, "entry %r of weights %r chosen %d times in %d calls: exact two-sided binomial tail %.3g for p = %d/%d"
+                                       % (it, ents, k_ent, len(vals), binom_tail(len(vals), k_ent, p), w, total), {"case": c["classes"], "values": vals[:200]})
+                if w > 0 and len(members) > 1:
+                    for m in members:
+                        ntests += 1
+                        km = sum(1 for v in vals if v == m)
+                        if km == 0 and (1 - p / len(members)) ** len(vals) < alpha:
+                            core.add_violation(ctx, "value %d of range entry %r (weight %d of %d) was never produced in %d calls (probability of "
+                                                    "that %.3g)" % (m, it, w, total, len(vals), (1 - p / len(members)) ** len(vals)),
+                                               {"case": c["classes"], "values": vals[:200]})
+                        elif binom_tail(len(vals), km, p / len(members)) < alpha:
+                            core.add_violation(ctx, "value %d of range entry %r produced %d times in %d calls (expected share %d/%d/%d)"
+                                               % (m, it, km, len(vals), w, total, len(members)), {"case": c["classes"], "values": vals[:200]})
+            if any(v not in {m for it, w in ents if w > 0 for m in (range(it[0], it[1] + 1) if isinstance(it, list) else [it])} for v in vals):
+                core.add_violation(ctx, "an unlisted or zero-weight value was produced by an otherwise unconstrained dist", {"case": c["classes"], "values": vals[:200]})
     return st, len(fcases) * ncalls, ntests
 
 
